@@ -300,8 +300,9 @@ def direct_real(c, o):
             continue
         for name, key in (("sorted", "C01:unsorted"), ("others_kept", "C01:others-changed"),
                           ("worst_was_min", "C01:removed-not-min"), ("it_ok", "C01:it-field"),
-                          ("new_finP", "C01:prior-not-finite"), ("new_inb", "C01:out-of-bounds")):
-            if not e[name]:
+                          ("new_finP", "C01:prior-not-finite"), ("new_inb", "C01:out-of-bounds"),
+                          ("live_inb", "C01:out-of-bounds"), ("new_logL_ok", "C01:stored-logL-not-models")):
+            if not e.get(name, True):
                 bad.append((key, f"real run ({c['proposal']}): {name} false at stream position {e['pos']}"))
         if e["size"] != n:
             bad.append(("C01:size", f"real run: live set size {e['size']}"))
@@ -462,6 +463,14 @@ def real_cases(chk):
             {"kind": "real", "proposal": "analytic", "nlive": 40, "seed": 11 + chk.seed, "stopping": 2.0, "full_every": 20},
             {"kind": "real", "proposal": "flow", "nlive": 40, "seed": 12 + chk.seed, "stopping": 2.0, "max_epochs": 10,
              "maximum_uninformed": 40, "full_every": 20},
+            # reparameterisation given for the LAST parameter only: the proposal's internal parameter order differs
+            # from model.names, on a model whose parameters have disjoint ranges
+            {"kind": "real", "proposal": "flow", "nlive": 40, "seed": 13 + chk.seed, "stopping": 2.0, "max_epochs": 10,
+             "maximum_uninformed": 40, "full_every": 20, "variant": "asym", "reparameterisations": {"x1": "default"},
+             "max_iteration": 160},
+            # a prior that is finite outside the bounds and posterior mass at a corner of the box
+            {"kind": "real", "proposal": "flow", "nlive": 40, "seed": 14 + chk.seed, "stopping": 2.0, "max_epochs": 10,
+             "maximum_uninformed": 40, "full_every": 20, "variant": "flat-corner", "max_iteration": 200},
         ]
     out = []
     for i, (prop, nl) in enumerate([("analytic", 10), ("analytic", 100), ("rejection", 50), ("flow", 50), ("flow", 100),
@@ -471,6 +480,11 @@ def real_cases(chk):
                     # the number of rejected draws per iteration grows like 1/X: cap the large runs
                     "max_iteration": None if nl <= 100 else 3 * nl,
                     "full_every": 50 if nl <= 100 else 150, "dims": 2 if i % 2 == 0 else 3})
+    out.append({"kind": "real", "proposal": "flow", "nlive": 60, "seed": 200 + chk.seed, "stopping": 1.0, "max_epochs": 20,
+                "maximum_uninformed": 60, "full_every": 50, "variant": "asym", "dims": 3,
+                "reparameterisations": {"x2": "default", "x0": "default"}, "max_iteration": 400})
+    out.append({"kind": "real", "proposal": "flow", "nlive": 60, "seed": 201 + chk.seed, "stopping": 1.0, "max_epochs": 20,
+                "maximum_uninformed": 60, "full_every": 50, "variant": "flat-corner", "max_iteration": 400})
     return out
 
 
